@@ -135,11 +135,20 @@ type packageSection struct {
 	GoFiles     []fileDigest     `yaml:"go_files,omitempty"`
 	AltGoFiles  []fileDigest     `yaml:"alt_go_files,omitempty"`
 	OtherFiles  []fileDigest     `yaml:"other_files,omitempty"`
+	EmbedFiles  []embedDigest    `yaml:"embed_files,omitempty"`
+	LinkFiles   []fileDigest     `yaml:"link_files,omitempty"`
 	RewriteVars orderedStringMap `yaml:"rewrite_vars,omitempty"`
 }
 
+// embedDigest records one file matched by a //go:embed directive.
+type embedDigest struct {
+	Var  string `yaml:"var"`
+	Name string `yaml:"name"`
+	Hash string `yaml:"sha256"`
+}
+
 func (s *packageSection) empty() bool {
-	return s.PkgPath == "" && s.PkgID == "" && len(s.GoFiles) == 0 && len(s.AltGoFiles) == 0 && len(s.OtherFiles) == 0 && len(s.RewriteVars) == 0
+	return s.PkgPath == "" && s.PkgID == "" && len(s.GoFiles) == 0 && len(s.AltGoFiles) == 0 && len(s.OtherFiles) == 0 && len(s.EmbedFiles) == 0 && len(s.LinkFiles) == 0 && len(s.RewriteVars) == 0
 }
 
 // manifestBuilder builds manifest text with sorted sections.
